@@ -21,7 +21,7 @@ DEFAULT_CFG = dict(
     save_every=None, shift=0.0,
 )
 
-TARGETS = {"gauss": targets.ll_gauss, "bimodal": targets.ll_bimodal, "flat": targets.ll_flat, "unequal": targets.ll_unequal, "corner": targets.ll_corner, "hole": targets.ll_hole, "sharp": targets.ll_sharp, "sliver": targets.ll_sliver, "weak": targets.ll_weak}
+TARGETS = {"plateau": targets.ll_plateau, "errsens": targets.ll_errsens, "gauss": targets.ll_gauss, "bimodal": targets.ll_bimodal, "flat": targets.ll_flat, "unequal": targets.ll_unequal, "corner": targets.ll_corner, "hole": targets.ll_hole, "sharp": targets.ll_sharp, "sliver": targets.ll_sliver, "weak": targets.ll_weak}
 def _pt_affine32(u):
     return (20.0 * np.asarray(u) - 10.0).astype(np.float32)
 
@@ -335,6 +335,8 @@ class Probe:
             elif e == "warnings-error":
                 st.enter_context(warnings.catch_warnings())
                 warnings.simplefilter("error")
+            elif e == "over-raise":
+                st.enter_context(np.errstate(over="raise"))
             elif e == "printoptions":
                 st.enter_context(np.printoptions(precision=1, threshold=3, suppress=True))
             yield
@@ -400,7 +402,8 @@ class Probe:
                 for _ in range(n):
                     while True:
                         try:
-                            self.sampler.sample()
+                            with self._env():
+                                self.sampler.sample()
                             break
                         except Exception as e:
                             if retry_on is None or not isinstance(e, retry_on) or self.retries >= 8:
